@@ -134,12 +134,6 @@ private:
     for (unsigned int i = 0; i < l.size(); ++i) {
       interval_t intv = l[i];
 
-      if (prev == intv) {
-        CRAB_LOG("disint", crab::outs() << "-- Normalize: duplicate"
-                                        << "\n");
-        continue;
-      }
-
       if (intv.is_bottom()) {
         CRAB_LOG("disint", crab::outs() << "-- Normalize: bottom interval"
                                         << "\n");
@@ -147,11 +141,19 @@ private:
         continue;
       }
 
+      // This must be checked before looking for duplicates because prev
+      // is initially top.
       if (intv.is_top()) {
         CRAB_LOG("disint", crab::outs() << "-- Normalize: top interval"
                                         << "\n");
         is_bottom = false;
         return list_intervals_t();
+      }
+
+      if (prev == intv) {
+        CRAB_LOG("disint", crab::outs() << "-- Normalize: duplicate"
+                                        << "\n");
+        continue;
       }
 
       if (!prev.is_top()) {
